@@ -85,6 +85,16 @@ pub fn unfill(text: &str) -> (String, Options<'_>) {
         }
     }
 
+    #[cfg(feature = "verif-hooks")]
+    crate::verif::emit(
+        "unfill.options",
+        &[
+            crate::verif::n(options.width),
+            crate::verif::n(options.initial_indent.len()),
+            crate::verif::n(options.subsequent_indent.len()),
+        ],
+    );
+
     let mut unfilled = String::with_capacity(text.len());
     let mut detected_line_ending = None;
 
